@@ -42,6 +42,8 @@ struct Bh {
     /// builder order: reject_when_full() is called first and the wait given afterwards (the
     /// later call wins); max_concurrent_calls is given last
     preset_first: bool,
+    /// a (no-op) listener is registered for every event type
+    listeners: bool,
 }
 
 struct X {
@@ -100,7 +102,7 @@ impl Scenario for Bh {
         self.prop
     }
     fn label(&self) -> String {
-        format!("bulkhead max={} max_wait={:?} callers={}{}{}", self.max, self.max_wait, self.callers, if self.late_ticks > 0 { " late-polls" } else { "" }, if self.shave_us > 0 { format!(" minus {}us", self.shave_us) } else if self.single_handle { " one-handle".to_string() } else if self.keep_done { " finished-futures-kept".to_string() } else if self.sync_panic_first { " first-inner-call-panics-in-call()".to_string() } else if self.preset_first { " builder_order=small()_preset_first".to_string() } else { String::new() })
+        format!("bulkhead max={} max_wait={:?} callers={}{}{}", self.max, self.max_wait, self.callers, if self.late_ticks > 0 { " late-polls" } else { "" }, if self.shave_us > 0 { format!(" minus {}us", self.shave_us) } else if self.single_handle { " one-handle".to_string() } else if self.keep_done { " finished-futures-kept".to_string() } else if self.sync_panic_first { " first-inner-call-panics-in-call()".to_string() } else if self.preset_first { " builder_order=small()_preset_first".to_string() } else if self.listeners { " with-listeners".to_string() } else { String::new() })
     }
     fn callers(&self) -> usize {
         self.callers
@@ -134,6 +136,7 @@ impl Scenario for Bh {
                 Some(ms) => b.max_wait_duration(Duration::from_micros(ms * 1000 - self.shave_us)),
             }
         };
+        let b = if self.listeners { b.on_call_permitted(|_| {}).on_call_rejected(|_| {}).on_call_finished(|_| {}).on_call_failed(|_| {}) } else { b };
         let layer = b.build();
         if self.sync_panic_first {
             w.inner.lock().unwrap().sync_panic_calls = vec![0];
@@ -337,8 +340,12 @@ const WAIT_FOR_EVER: u64 = u64::MAX / 4;
 
 fn configs(prop: &'static str, tier: Tier) -> Vec<Bh> {
     let mut v = vec![];
+    // listeners registered for every event type
+    for max_wait in [None, Some(0u64), Some(20)] {
+        v.push(Bh { prop, max: 1, max_wait, callers: 3, max_ticks: tier.pick(3, 4), max_drops: 1, max_panics: 1, late_ticks: 0, shave_us: 0, single_handle: false, grid: 10, keep_done: false, sync_panic_first: false, preset_first: false, listeners: true });
+    }
     // a wait of Duration::MAX (the timer cannot represent the deadline)
-    v.push(Bh { prop, max: 1, max_wait: Some(WAIT_FOR_EVER), callers: 3, max_ticks: tier.pick(2, 3), max_drops: 1, max_panics: 0, late_ticks: 0, shave_us: 0, single_handle: false, grid: 10, keep_done: false, sync_panic_first: false, preset_first: false });
+    v.push(Bh { prop, max: 1, max_wait: Some(WAIT_FOR_EVER), callers: 3, max_ticks: tier.pick(2, 3), max_drops: 1, max_panics: 0, late_ticks: 0, shave_us: 0, single_handle: false, grid: 10, keep_done: false, sync_panic_first: false, preset_first: false, listeners: false });
     for max in [1usize, 2] {
         for max_wait in [None, Some(0), Some(20), Some(25)] {
             let callers = tier.pick(3, 4).max(max + 1);
@@ -357,39 +364,40 @@ fn configs(prop: &'static str, tier: Tier) -> Vec<Bh> {
                 keep_done: false,
                 sync_panic_first: false,
                 preset_first: false,
+                listeners: false,
             });
         }
     }
     // a wait in the seconds range (2.02 s, explored on a 1.01 s grid): whole seconds plus a
     // sub-second part
-    v.push(Bh { prop, max: 1, max_wait: Some(2020), callers: 3, max_ticks: tier.pick(3, 4), max_drops: 1, max_panics: 0, late_ticks: 0, shave_us: 0, single_handle: false, grid: 1010, keep_done: false, sync_panic_first: false, preset_first: false });
+    v.push(Bh { prop, max: 1, max_wait: Some(2020), callers: 3, max_ticks: tier.pick(3, 4), max_drops: 1, max_panics: 0, late_ticks: 0, shave_us: 0, single_handle: false, grid: 1010, keep_done: false, sync_panic_first: false, preset_first: false, listeners: false });
     // the builder calls in another order: reject_when_full() first, the wait (or a second
     // reject_when_full()) after it, the limit last - the later call wins
     for max_wait in [Some(0u64), Some(20)] {
-        v.push(Bh { prop, max: 1, max_wait, callers: 3, max_ticks: tier.pick(3, 4), max_drops: 1, max_panics: 0, late_ticks: 0, shave_us: 0, single_handle: false, grid: 10, keep_done: false, sync_panic_first: false, preset_first: true });
+        v.push(Bh { prop, max: 1, max_wait, callers: 3, max_ticks: tier.pick(3, 4), max_drops: 1, max_panics: 0, late_ticks: 0, shave_us: 0, single_handle: false, grid: 10, keep_done: false, sync_panic_first: false, preset_first: true, listeners: false });
     }
     // the first inner call panics inside call() itself
     for max_wait in [None, Some(20u64)] {
-        v.push(Bh { prop, max: 1, max_wait, callers: 3, max_ticks: tier.pick(2, 3), max_drops: 1, max_panics: 0, late_ticks: 0, shave_us: 0, single_handle: false, grid: 10, keep_done: false, sync_panic_first: true, preset_first: false });
+        v.push(Bh { prop, max: 1, max_wait, callers: 3, max_ticks: tier.pick(2, 3), max_drops: 1, max_panics: 0, late_ticks: 0, shave_us: 0, single_handle: false, grid: 10, keep_done: false, sync_panic_first: true, preset_first: false, listeners: false });
     }
     // finished futures stay alive until dropped explicitly
     for max_wait in [None, Some(20u64)] {
-        v.push(Bh { prop, max: 1, max_wait, callers: 3, max_ticks: tier.pick(2, 3), max_drops: tier.pick(2, 3), max_panics: 0, late_ticks: 0, shave_us: 0, single_handle: false, grid: 10, keep_done: true, sync_panic_first: false, preset_first: false });
+        v.push(Bh { prop, max: 1, max_wait, callers: 3, max_ticks: tier.pick(2, 3), max_drops: tier.pick(2, 3), max_panics: 0, late_ticks: 0, shave_us: 0, single_handle: false, grid: 10, keep_done: true, sync_panic_first: false, preset_first: false, listeners: false });
     }
     // all callers through the one original handle (no clone alive between calls)
     for max_wait in [None, Some(20u64)] {
-        v.push(Bh { prop, max: 1, max_wait, callers: 3, max_ticks: tier.pick(3, 4), max_drops: 1, max_panics: 0, late_ticks: 0, shave_us: 0, single_handle: true, grid: 10, keep_done: false, sync_panic_first: false, preset_first: false });
+        v.push(Bh { prop, max: 1, max_wait, callers: 3, max_ticks: tier.pick(3, 4), max_drops: 1, max_panics: 0, late_ticks: 0, shave_us: 0, single_handle: true, grid: 10, keep_done: false, sync_panic_first: false, preset_first: false, listeners: false });
     }
     // waits with a sub-millisecond part: 0.5 ms and 19.75 ms
     for (max_wait, shave_us) in [(1u64, 500u64), (20, 250)] {
-        v.push(Bh { prop, max: 1, max_wait: Some(max_wait), callers: 3, max_ticks: tier.pick(3, 4), max_drops: 1, max_panics: 0, late_ticks: 0, shave_us, single_handle: false, grid: 10, keep_done: false, sync_panic_first: false, preset_first: false });
+        v.push(Bh { prop, max: 1, max_wait: Some(max_wait), callers: 3, max_ticks: tier.pick(3, 4), max_drops: 1, max_panics: 0, late_ticks: 0, shave_us, single_handle: false, grid: 10, keep_done: false, sync_panic_first: false, preset_first: false, listeners: false });
     }
     // a late executor: woken callers (permit handed over, wait deadline passed) are polled up to two ticks late
     for (max, max_wait) in [(1usize, Some(20u64)), (1, None), (2, Some(20))] {
         if tier == Tier::Quick && max == 2 {
             continue;
         }
-        v.push(Bh { prop, max, max_wait, callers: 3, max_ticks: tier.pick(4, 5), max_drops: tier.pick(1, 2), max_panics: tier.pick(0, 1), late_ticks: 2, shave_us: 0, single_handle: false, grid: 10, keep_done: false, sync_panic_first: false, preset_first: false });
+        v.push(Bh { prop, max, max_wait, callers: 3, max_ticks: tier.pick(4, 5), max_drops: tier.pick(1, 2), max_panics: tier.pick(0, 1), late_ticks: 2, shave_us: 0, single_handle: false, grid: 10, keep_done: false, sync_panic_first: false, preset_first: false, listeners: false });
     }
     v
 }
